@@ -724,5 +724,30 @@ class F:
         return f"{self.fi.module.relpath}:{n.lineno}"
 
 
+def object_writes(f: "F"):
+    """Places where an object is written to a file, in either spelling:
+         obj.save(path)                                      -> (node, path expr, text of obj, 'save', call)
+         with open(path, 'wb') as fh: fh.write(bytes(obj))   -> (node of the write, path expr, text of obj, 'inline', open call)
+    (the second is what IH5Manifest.save does; a caller may do it itself).  Texts are local-expanded."""
+    out = []
+    g = f.g
+    for i, c, b in f.call_sites("__o.save(__p)"):
+        out.append((i, b["__p"], f.x_at(i, b["__o"]), "save", c))
+    for n in g.nodes:
+        if n.kind != "with" or n.stmt is None:
+            continue
+        for it in n.stmt.items:
+            m = M.match("open(__p, 'wb')", it.context_expr) or M.match("open(__p, mode='wb')", it.context_expr)
+            if m is None or not isinstance(it.optional_vars, ast.Name):
+                continue
+            fh = it.optional_vars.id
+            for i, c, b in f.call_sites(f"{fh}.write(__d)"):
+                d = f.xe_at(i, b["__d"])
+                m2 = M.match("bytes(__o)", d)
+                obj = norm(m2["__o"]) if m2 is not None else norm(d)
+                out.append((i, m["__p"], obj, "inline" if m2 is not None else "inline-raw", it.context_expr))
+    return out
+
+
 def fv(ctx, P, qual: str) -> F:
     return F(ctx, P.func(qual))
